@@ -13,7 +13,7 @@ histories (return values, move index semantics): runtime values.
 import ast
 
 from .. import guards
-from ..astutil import Env, chain, src, walk, strip_not, const, stmts
+from ..astutil import Env, chain, src, walk, strip_not, const, stmts, targets_of
 from ..effects import Effects
 from ..model import Unrecognised
 
@@ -128,6 +128,17 @@ class Ctx:
         node = self.X(node) if not isinstance(node, ast.Tuple) else node
         if isinstance(node, ast.Tuple) and len(node.elts) == 2:
             return node.elts[0], node.elts[1]
+        if isinstance(node, ast.Name):
+            # a temporary bound exactly once to a pair (possibly inside the loop that uses it, ``pair = (o, p)``), none
+            # of whose components is rebound between the binding and this use
+            defs = [s for s in stmts(self.func.body) if isinstance(s, ast.Assign) and len(s.targets) == 1 and name_is(s.targets[0], node.id)]
+            others = [s for s in stmts(self.func.body) if not isinstance(s, ast.Assign) and node.id in targets_of(s)]
+            if len(defs) == 1 and not others and isinstance(defs[0].value, ast.Tuple) and len(defs[0].value.elts) == 2:
+                lo, hi = defs[0].lineno, getattr(node, 'lineno', defs[0].lineno)
+                comps = {n.id for n in ast.walk(defs[0].value) if isinstance(n, ast.Name)}
+                clobbered = any(lo < getattr(s, 'lineno', 0) < hi and (set(targets_of(s)) & comps) for s in stmts(self.func.body))
+                if lo <= hi and not clobbered:
+                    return defs[0].value.elts[0], defs[0].value.elts[1]
         if isinstance(node, ast.Name) and self.sorts.get(node.id) == 'Cell':
             comps = self.cell_components.get(node.id)
             if comps:
@@ -972,6 +983,8 @@ def unique_rules(model, R):
                           f'{src(arg)[:100]} filters only against the names already present',
                           extra={'consequence': 'a new name that occurs twice in the argument is stored twice: duplicate rows/columns'})
                     decided = True
+        if not decided and model.fully_inlined(mfunc):
+            decided = True
         if not decided:
             R.unknown('UNIQUE-INVARIANT', mfunc, writes[0].node, f'{mname}: writes the containers directly', 'a writer the rule table does not know')
     func = cls.methods.get('__contains__')
@@ -1139,5 +1152,8 @@ def run(model, R):
             continue
         E = Effects(func, FIELDS)
         if any(mut(e) for e in E.records):
+            if model.fully_inlined(func):
+                R.ok('ANCHOR', func, func.node, name, 'private helper, judged inside every caller (all calls spliced into the known mutators)')
+                continue
             R.unknown('ANCHOR', func, func.node, name, 'a mutator that the rule table does not know')
     return __doc__.strip()
